@@ -43,7 +43,7 @@ var cliFiles = map[string]string{
 	"annot.txt": "ann1:A,B\nann2:C,D\n",
 	"map.txt":   "A\tTa\nB\tTb\nC\tTc\nD\tTd\nE\tTe\n",
 	"tips.txt":  "A\nB\n",
-	"tipsx.txt": "A\nB\nC\nD\nE\nZ\n",
+	"tipsx.txt": "A\nB\nC\nD\nE\nZ\nY\nX\n",
 	"groups.txt": "A,A2,A3\nC,C2\n",
 	"br.txt":    "ab\n",
 	"graft.nw":  "(X:1,Y:1,Z:1);\n",
@@ -86,7 +86,7 @@ func cliTable() []cliEntry {
 		cliE("comment-transfer", "comment transfer -i @/com.nw"),
 		cliE("compare-edges", "compare edges -i @/t.nw -c @/t2.nw"),
 		cliE("compare-edges-transfer", "compare edges -i @/t.nw -c @/t2.nw --transfer-dist --moved-taxa"),
-		cliE("compare-tips", "compare tips -i @/t.nw -c @/poly.nw"),
+		cliE("compare-tips", "compare tips -i @/t.nw -c @/t8.nw"),
 		cliE("compare-tips-file", "compare tips -i @/t.nw -f @/tipsx.txt"),
 		cliE("compare-trees", "compare trees -i @/t.nw -c @/multi.nw"),
 		cliE("compare-trees-tips", "compare trees -i @/t.nw -c @/multi.nw --tips"),
